@@ -139,7 +139,7 @@ def tasks_c18(tier, seed):
     return seq("c18", tier, shards=4) + seq("c04", tier, shards=8) + seq("c07", tier, shards=4)
 
 
-QE_SCENS = ["QE0", "QE1-model", "QE1-events", "QE1-error", "QE1-notfound", "QE1-panic", "QE1-nothing", "QE1-timeout", "QE1-twice",
+QE_SCENS = ["QE0", "QE1-model", "QE1-events", "QE1-error", "QE1-notfound", "QE1-panic", "QE1-panicnil", "QE1-nothing", "QE1-timeout", "QE1-twice",
             "QE2", "QEempty", "QEnopayload", "QEfail", "QEconc", "QEconcNil", "QEchain", "QEshutdown", "QEshutdownBusy"]
 
 
